@@ -112,6 +112,24 @@ Definition np_setitems {A} (a : list A) (idx : list nat) (vals : list A) : res (
          end
   else Err EIndex.
 
+(* a[m, n] = q on a 2-d array, for the index combinations that address a block (m or n is an int or a slice):
+   every selected row gets q at the selected columns *)
+Definition np_setrow (v : list Q) (n : index) (q : Q) : res (list Q) :=
+  match n with
+  | IInt k | ITup k => if Nat.ltb k (length v) then Ok (upd v k q) else Err EIndex
+  | _ => do idx <- np_index_list (length v) n; np_setitems v idx [q]
+  end.
+Fixpoint np_upd_rows (g : list Q -> res (list Q)) (M : list (list Q)) (sel : list nat) : res (list (list Q)) :=
+  match sel with
+  | [] => Ok M
+  | i :: t => match nth_error M i with
+              | None => Err EIndex
+              | Some r => do r' <- g r; np_upd_rows g (upd M i r') t
+              end
+  end.
+Definition np_set2_scalar (M : list (list Q)) (m n : index) (q : Q) : res (list (list Q)) :=
+  do sel <- np_index_list (length M) m; np_upd_rows (fun r => np_setrow r n q) M sel.
+
 (* ------------------------------------------------------------------ dense step for the float-vector fragment *)
 Inductive doutcome :=
 | DErr (e : err) | DNew (o : dobj) | DUpd (o : dobj) | DSelf
